@@ -35,8 +35,34 @@ fn ufo_kern_lookup(kerning: &HashMap<String, HashMap<String, f64>>, g1: &HashMap
     0.0
 }
 
-fn anchors_of(layer: &Value) -> Vec<(String, f64, f64)> {
+fn own_anchors(layer: &Value) -> Vec<(String, f64, f64)> {
     layer["anchors"].as_array().map(|a| a.iter().map(|x| (x["name"].as_str().unwrap_or("").to_string(), f(&x["x"]), f(&x["y"]))).collect()).unwrap_or_default()
+}
+
+thread_local! {
+    /// the manifest's glyphs (each layer tagged with its master) while anchor propagation is on
+    static PROPAGATION: std::cell::RefCell<Option<Value>> = const { std::cell::RefCell::new(None) };
+}
+
+/// Anchors of a layer as the compiler must see them.  With anchor propagation on, a composite without anchors of its own
+/// made of exactly one component with an identity 2x2 inherits that component's anchors shifted by the offset (the one
+/// case the propagation rules leave no choice in); everything else keeps its own anchors.
+fn anchors_of(layer: &Value) -> Vec<(String, f64, f64)> {
+    let own = own_anchors(layer);
+    if !own.is_empty() {
+        return own;
+    }
+    let comps = layer["components"].as_array().cloned().unwrap_or_default();
+    let glyphs = PROPAGATION.with(|p| p.borrow().clone());
+    let (Some(glyphs), 1) = (glyphs, comps.len()) else { return own };
+    let x: Vec<f64> = comps[0]["xform"].as_array().map(|v| v.iter().map(f).collect()).unwrap_or_default();
+    if x.len() != 6 || x[0] != 1.0 || x[1] != 0.0 || x[2] != 0.0 || x[3] != 1.0 {
+        return own;
+    }
+    let Some(master) = layer["_master"].as_str() else { return own };
+    let Some(base) = glyphs.as_array().and_then(|gs| gs.iter().find(|g| g["name"] == comps[0]["base"])) else { return own };
+    let Some(bl) = base["layers"].get(master) else { return own };
+    anchors_of(bl).into_iter().map(|(n, ax, ay)| (n, ax + x[4], ay + x[5])).collect()
 }
 
 #[derive(Debug, Clone, PartialEq)]
@@ -80,6 +106,17 @@ pub fn check(font: &FontRef, man: &Value, gid_of: &HashMap<String, u32>, axes: &
         return;
     }
     let master_loc = |m: &Value| -> Vec<f64> { axes.iter().map(|a| q14(a.normalize_design(f(&m["design_loc"][&a.tag])))).collect() };
+    // every layer learns its master's name (anchor propagation looks the component up in the same master)
+    let mut glyphs = glyphs;
+    for g in glyphs.iter_mut() {
+        if let Some(layers) = g["layers"].as_object_mut() {
+            for (mname, layer) in layers.iter_mut() {
+                layer["_master"] = Value::String(mname.clone());
+            }
+        }
+    }
+    let propagate = man["propagate_anchors"].as_bool().unwrap_or(false);
+    PROPAGATION.with(|p| *p.borrow_mut() = if propagate { Some(Value::Array(glyphs.clone())) } else { None });
     let exported: Vec<String> = glyphs.iter().filter(|g| g["export"].as_bool().unwrap_or(true)).map(|g| g["name"].as_str().unwrap().to_string()).filter(|n| n != ".notdef" && gid_of.contains_key(n)).collect();
 
     // ------------------------------------------------------------------------------------------ C09
@@ -280,6 +317,9 @@ pub fn check(font: &FontRef, man: &Value, gid_of: &HashMap<String, u32>, axes: &
                 None => grp.clone(),
             };
             let (Some(ba), Some(ma)) = (anchors_of(al).into_iter().find(|x| x.0 == an), anchors_of(ml).into_iter().find(|x| x.0 == format!("_{grp}"))) else { continue };
+            if own_anchors(al).is_empty() {
+                out.stat("c10_propagated_attachments", 1.0);
+            }
             want.entry((a.clone(), *comp, mk.clone())).or_default().push((kind, (ot_round(ba.1), ot_round(ba.2)), (ot_round(ma.1), ot_round(ma.2)), grp.clone()));
         }
         for ((a, comp, mk), wants) in &want {
